@@ -118,6 +118,71 @@ class FuncInfo(Scope):
     return f'<Func {self.qualname}>'
 
 
+class CallbackView(FuncInfo):
+  """A function used as a callback with some leading parameters already bound
+  (`functools.partial(f, a, b)`, a bound method, an instance with __call__):
+  it reads like the closure it replaces - `params` are the parameters the
+  caller of the callback supplies."""
+
+  def __init__(self, base: FuncInfo, skip: int, outer: FuncInfo = None,
+               bound: Dict[str, ast.expr] = None):
+    import copy as _copy
+    self.__dict__.update(base.__dict__)
+    self._base = base
+    self._skip = skip
+    self._locals = None
+    bound = dict(bound or {})
+    all_params = FuncInfo.params.fget(base)
+    if outer is not None and not base.is_lambda and (
+        outer.module is base.module):
+      # read like the closure it replaces: parameters bound by the caller
+      # stand for the bound expressions, the function sits inside `outer`
+      node = _copy.deepcopy(base.node)
+      keep_first = 1 if (base.cls is not None and skip >= 1) else 0
+      own = set(all_params[skip:]) | {
+          n.id for n in ast.walk(node) if isinstance(n, ast.Name) and
+          isinstance(n.ctx, ast.Store)}
+      safe = {k: v for k, v in bound.items() if not any(
+          isinstance(x, ast.Name) and x.id in own for x in ast.walk(v))}
+
+      class _S(ast.NodeTransformer):
+
+        def visit_Name(self, n):
+          if isinstance(n.ctx, ast.Load) and n.id in safe:
+            return ast.copy_location(_copy.deepcopy(safe[n.id]), n)
+          return n
+
+      node.body = [_S().visit(st) for st in node.body]
+      a = node.args
+      drop = set(safe)
+      a.posonlyargs = [x for x in a.posonlyargs if x.arg not in drop]
+      n_def = len(a.defaults)
+      pos = a.args
+      defaults = [None] * (len(pos) - n_def) + list(a.defaults)
+      kept = [(x, d) for x, d in zip(pos, defaults) if x.arg not in drop]
+      a.args = [x for x, _ in kept]
+      a.defaults = [d for _, d in kept if d is not None]
+      kw = [(x, d) for x, d in zip(a.kwonlyargs, a.kw_defaults)
+            if x.arg not in drop]
+      a.kwonlyargs = [x for x, _ in kw]
+      a.kw_defaults = [d for _, d in kw]
+      ast.fix_missing_locations(node)
+      self.node = node
+      self.parent = outer
+      self.qualname = f'{outer.qualname}.{base.name}'
+      self._skip = keep_first
+      self.nested = {}
+      self.lambdas = []
+
+  @property
+  def params(self) -> List[str]:
+    return FuncInfo.params.fget(self)[self._skip:]
+
+  @property
+  def bound_params(self) -> List[str]:
+    return FuncInfo.params.fget(self)[:self._skip]
+
+
 class ClassInfo(Scope):
 
   def __init__(self, module, qualname, node, parent):
@@ -230,6 +295,9 @@ class Project:
       if expand.get('temps'):
         k_t = sum(normalise.eliminate_temps(f.node) for f in fns)
       if expand.get('loops'):
+        ku = sum(normalise.unroll_literal_loops(f.node) for f in fns)
+        if ku:
+          self.inlined.append(f'{ku} loop(s) over a literal table unrolled')
         k = sum(normalise.loops_to_comprehensions(f.node) for f in fns)
         if k:
           self.inlined.append(f'{k} accumulator loop(s) as comprehensions')
@@ -540,6 +608,9 @@ class Project:
     """
     modq, _, name = q.rpartition('.')
     outer = self.funcs.get(modq)
+    if outer is None and modq not in self.modules and (
+        modq not in self.classes) and modq.rpartition('.')[0] in self.modules:
+      outer = self._relocated(modq)  # the enclosing function moved as well
     if outer is not None and not outer.is_lambda:
       return self.nested_of(outer, name)
     mod = self.modules.get(modq)
@@ -591,6 +662,103 @@ class Project:
     passed = sorted(set(passed))
     if len(passed) == 1:
       return outer.nested[passed[0]]
+    if not cands:
+      return self.callback_of(outer)
+    return None
+
+  def callbacks(self, outer: FuncInfo) -> List[FuncInfo]:
+    """The local callbacks of `outer`: its nested functions, or - when it has
+    none - the function it hands to a traversal (see callback_of)."""
+    out = list(outer.nested.values())
+    if not out:
+      cb = self.callback_of(outer)
+      if cb is not None:
+        out = [cb]
+    return out
+
+  _RUNNERS = ('run', 'begin', 'MemoizedTraversal', 'BasicTraversal',
+              'traverse_with_path', 'memoized_traverse')
+
+  def callback_of(self, outer: FuncInfo) -> Optional[FuncInfo]:
+    """The function `outer` hands to a traversal as its callback when that is
+    no longer a closure: a module-level function (possibly with leading
+    arguments bound by functools.partial), a bound method, or an instance of a
+    class with __call__.  None unless there is exactly one."""
+    found = {}
+    bindings: Dict[str, ast.expr] = {}
+
+    def local_value(name):
+      vals = [n.value for n in ast.walk(outer.node) if isinstance(
+          n, ast.Assign) and any(isinstance(t, ast.Name) and t.id == name
+                                 for t in n.targets)]
+      return vals[0] if len(vals) == 1 else None
+
+    def resolve_cb(e, depth=0):
+      if depth > 3:
+        return None
+      if isinstance(e, ast.Name):
+        v = local_value(e.id)
+        if v is not None:
+          return resolve_cb(v, depth + 1)
+        q = self.resolve(e, outer)
+        if q in self.funcs:
+          return self.funcs[q], 0
+        if q in self.classes:
+          return None
+        return None
+      if isinstance(e, ast.Call):
+        fq = self.resolve(e.func, outer) or ''
+        if fq == 'functools.partial' and e.args:
+          r = resolve_cb(e.args[0], depth + 1)
+          if r is not None:
+            base_params = FuncInfo.params.fget(r[0])
+            for prm, a_ in zip(base_params[r[1]:], e.args[1:]):
+              bindings[prm] = a_
+            for k_ in e.keywords:
+              if k_.arg:
+                bindings[k_.arg] = k_.value
+            return r[0], r[1] + len(e.args) - 1
+          return None
+        if fq in self.classes:  # an instance used as the callback
+          m = self.find_method(fq, '__call__')
+          if m is not None:
+            return m, 1
+        return None
+      if isinstance(e, ast.Attribute):
+        base = e.value
+        if isinstance(base, ast.Name):
+          v = local_value(base.id)
+          if isinstance(v, ast.Call):
+            cq = self.resolve(v.func, outer) or ''
+            if cq in self.classes:
+              m = self.find_method(cq, e.attr)
+              if m is not None:
+                return m, 1
+        q = self.resolve(e, outer)
+        if q in self.funcs:
+          return self.funcs[q], 0
+      return None
+
+    for n in ast.walk(outer.node):
+      if not isinstance(n, ast.Call):
+        continue
+      tail = unparse(n.func).split('.')[-1]
+      if tail not in self._RUNNERS:
+        continue
+      cand = n.args[0] if n.args else None
+      for k in n.keywords:
+        if k.arg in ('traversal_fn', 'fn'):
+          cand = k.value
+      if cand is None:
+        continue
+      r = resolve_cb(cand)
+      if r is not None and r[0].qualname != outer.qualname:
+        found[(r[0].qualname, r[1])] = r
+    if len(found) == 1:
+      base, skip = next(iter(found.values()))
+      if skip or bindings:
+        return CallbackView(base, skip, outer, bindings)
+      return base
     return None
 
   def cls(self, q: str) -> ClassInfo:
